@@ -831,14 +831,31 @@ def check_eval(case, use_jit=True):
     out = Out()
     S, P, H = case["dims"][:3]
     RT = jnp.asarray(qarr(case["rtab"]).astype(np.float32))
+    RA = jnp.asarray(qarr(case["ract"]).astype(np.float32))
+    RO = jnp.asarray(qarr(case["robs"]).astype(np.float32))
+    rkind = case["rkind"]
 
-    def reward_model(act, obs):  # table reward over tags (D1): feature 0 of action / observation is the tag
-        return RT[act[..., 0].astype(int), obs[..., 0].astype(int)]
+    # table rewards over tags (D1): feature 0 of action / observation is the tag.  Each is written the way a user
+    # would: the action-only reward (a control cost) never touches `obs`, so its result has the shape of `act` alone
+    if rkind == "act":
+
+        def reward_model(act, obs):
+            return RA[act[..., 0].astype(int)]
+
+    elif rkind == "obs":
+
+        def reward_model(act, obs):
+            return RO[obs[..., 0].astype(int)]
+
+    else:
+
+        def reward_model(act, obs):
+            return RT[act[..., 0].astype(int), obs[..., 0].astype(int)]
 
     acts = np.asarray(case["acts"], dtype=np.float32).reshape(S, H, 1)
     tr = np.asarray(case["traj"], dtype=np.float32).reshape(S, P, H + 1, 1)
     tr = np.concatenate([tr, np.full_like(tr, 7.0)], axis=-1)  # second observation feature: junk
-    key = (S, P, H, json.dumps(case["rtab"]))
+    key = (S, P, H, rkind, json.dumps([case["rtab"], case["ract"], case["robs"]]))
     if use_jit:
         if key not in _eval_jit:
             _eval_jit[key] = jax.jit(lambda a, t: evaluate_plans(a, t, reward_model))
@@ -857,29 +874,43 @@ def check_eval(case, use_jit=True):
     # P in {1, 2, 4}: dyadic -> exact; otherwise P-1 additions + division -> 4 ulp
     ok = np.array_equal(v.astype(np.float64), want) if P in (1, 2, 4) else np.all(within_ulps(v, want, 4))
     if not ok:
-        out.add("evaluate_plans:value", f"evaluate_plans = {v.tolist()}, model (particle mean of summed rewards) {want.tolist()} for acts {case['acts']} traj {case['traj']}")
+        out.add("evaluate_plans:value", f"evaluate_plans = {v.tolist()}, model (particle mean of summed rewards) {want.tolist()} for a reward depending on {rkind!r}, dims (plans, particles, horizon) {case['dims']}, acts {case['acts']} traj {case['traj']}")
     return out
 
 
-EVAL_INVS = ["LastObsIgnored", "PlanLocal", "ParticlesExchangeable", "UnitCase"]
+EVAL_INVS = ["LastObsIgnored", "PlanLocal", "ParticlesExchangeable", "UnitCase", "ActionOnlyIsPlainSum", "ObservationOnlyIgnoresActions"]
+ALL_KINDS = {"both", "act", "obs"}
 
 
 def plan_eval(pool, quick, seed):
-    C = dict(Dev="none", Dims={111, 121, 211, 112, 221, 122} if quick else {111, 121, 211, 112, 221, 122, 212}, NPat=1)
+    # every tag assignment for small shapes, reward depending on action and observation
+    C = dict(Dev="none", Dims={111, 121, 211, 112, 221, 122} if quick else {111, 121, 211, 112, 221, 122, 212}, NPat=1, RKinds={"both"}, TrajPats=0)
     pool.generate("eval", "EnsemblePlan", C, next="NextEval")
+    # all three reward kinds (action only / observation only / both) x 1, 2, 4 particles x 1-3 plans: every action
+    # assignment, patterned trajectories (for an action-only reward the trajectories are irrelevant by ActionOnlyIsPlainSum)
+    CK = dict(Dev="none", Dims={111, 121, 141, 211, 221, 241, 212, 222, 242, 341}, NPat=1, RKinds=ALL_KINDS, TrajPats=3 if quick else 6)
+    pool.generate("evalkinds", "EnsemblePlan", CK, next="NextEval")
     # beyond the exhaustive bound: random vectors with 3-4 particles / plans (TLC simulation, seeded)
-    C2 = dict(Dev="none", Dims={231, 322, 242, 332} if quick else {231, 322, 242, 332, 343, 433, 243}, NPat=1)
+    C2 = dict(Dev="none", Dims={231, 322, 242, 332} if quick else {231, 322, 242, 332, 343, 433, 243}, NPat=1, RKinds=ALL_KINDS, TrajPats=0)
     pool.generate("evalsim", "EnsemblePlan", C2, next="NextEval", simulate=f"num={60 if quick else 400}", depth=12, seed=seed + 11)
-    pool.model_check("EnsemblePlan", C, EVAL_INVS, "EnsemblePlan Eval invariants", next="NextEval")
+    pool.model_check("EnsemblePlan", C, EVAL_INVS, "EnsemblePlan Eval invariants (reward on action and observation)", next="NextEval")
+    pool.model_check("EnsemblePlan", CK, EVAL_INVS, "EnsemblePlan Eval invariants (three reward kinds, 1/2/4 particles)", next="NextEval")
     small = dict(C, Dims={112})
     pool.canary("EnsemblePlan", small, "sum_all_obs", "LastObsIgnored", next="NextEval")
     pool.canary("EnsemblePlan", small, "mean_over_time", "UnitCase", next="NextEval")
+    pool.canary("EnsemblePlan", dict(CK, Dims={221}, TrajPats=1), "collapsed_particle_axis", "ActionOnlyIsPlainSum", next="NextEval")
 
 
 def part_eval(rep, pool):
     cases = list(pool.emitted("eval"))
+    kinds = pool.emitted("evalkinds")
     sim = pool.emitted("evalsim")
-    cases += sim
+    # vacuity guard: the kinds generator really covers action-only rewards with several particles and plans
+    for kind in ALL_KINDS:
+        for particles in (1, 2, 4):
+            if not any(c["rkind"] == kind and c["dims"][1] == particles and c["dims"][0] >= 2 for c in kinds):
+                raise tlc.MachineryError(f"no evaluate_plans vector with reward kind {kind}, {particles} particles and >= 2 plans")
+    cases += kinds + sim
     n = 0
     for j, case in enumerate(cases):
         out = check_eval(case)
@@ -893,7 +924,8 @@ def part_eval(rep, pool):
         raise tlc.MachineryError("binding canary: corrupted plan value not noticed")
     rep.traces += n
     rep.extra["eval_simulated_vectors"] = len(sim)
-    rep.sample({"evaluate_plans": cases[len(cases) // 2]})
+    rep.extra["eval_reward_kind_vectors"] = {k: sum(1 for c in cases if c["rkind"] == k) for k in sorted(ALL_KINDS)}
+    rep.sample({"evaluate_plans": next(c for c in kinds if c["rkind"] == "act" and c["dims"][:2] == [2, 4])})
     return n
 
 
@@ -1016,7 +1048,7 @@ def check_noise(O, shared, pattern, seed, bd_failed):
 
 
 def plan_prop(pool, quick):
-    C = dict(Dev="none", Dims={2222, 1332} if quick else {2221, 2222, 1332, 2323, 3213}, NPat=2 if quick else 4)
+    C = dict(Dev="none", Dims={2222, 1332} if quick else {2221, 2222, 1332, 2323, 3213}, NPat=2 if quick else 4, RKinds={"both"}, TrajPats=0)
     pool.generate("prop", "EnsemblePlan", C, next="NextProp")
     pool.model_check("EnsemblePlan", C, PROP_INVS, "EnsemblePlan TsInf invariants", next="NextProp")
     small = dict(C, Dims={2222}, NPat=2)
